@@ -6,8 +6,9 @@
                        are skipped
    outgoing_count[v]-> number of entries of neighbors(v) that lie in the node set (with multiplicity)
    scores           -> association list in node order (values are kept reduced with Qred; Qred x == x)
-   `for iterations in range(1, max_iter+1)` -> structural recursion on max_iter; max_iter = 0 makes the
-   Python code raise UnboundLocalError (max_diff unbound): modelled as None. *)
+   `for iterations in range(1, max_iter+1)` -> structural recursion on max_iter; max_iter = 0 returns the
+   uniform scores with objective float("inf") and status MAX_ITER: modelled as PR_noiter (the objective
+   observable is an option, None = inf). *)
 From Coq Require Import List Arith Bool ZArith QArith Qabs Qminmax.
 From SV Require Import C15.Graph.
 Import ListNotations.
@@ -65,14 +66,14 @@ Fixpoint pr_loop (fuel : nat) (it : nat) (g : graph) (d tol : Q) (s : list (nat 
     else pr_loop f (S it) g d tol s' md
   end.
 
-Inductive presult := PR_empty | PR_raises | PR_ok (r : pres).
+Inductive presult := PR_empty | PR_noiter (s : list (nat * Q)) | PR_ok (r : pres).
 
 Definition pagerank (g : graph) (d tol : Q) (max_iter : nat) : presult :=
   match nodes g with
   | [] => PR_empty                                       (* Result({}, 0.0, 0, 0) *)
   | _ =>
     match max_iter with
-    | 0%nat => PR_raises                                 (* UnboundLocalError: max_diff *)
+    | 0%nat => PR_noiter (init_scores g)                 (* Result(scores, inf, 0, n, MAX_ITER) *)
     | _ => PR_ok (pr_loop max_iter 0 g d tol (init_scores g) 0)
     end
   end.
@@ -92,14 +93,15 @@ Definition scores_close (eps : Q) (g : graph) (a b : list (nat * Q)) : bool :=
 Definition pstatus_eqb (a b : pstatus) : bool :=
   match a, b with P_OPTIMAL, P_OPTIMAL => true | P_MAX_ITER, P_MAX_ITER => true | _, _ => false end.
 
-(* impl observable: (scores, objective, iterations, status) *)
+(* impl observable: (scores, objective (None = inf), iterations, status) *)
 Definition pr_corr_strict (eps : Q) (g : graph) (d tol : Q) (max_iter : nat)
-           (o : list (nat * Q) * Q * nat * pstatus) : bool :=
+           (o : list (nat * Q) * option Q * nat * pstatus) : bool :=
   let '(sc, obj, it, st) := o in
-  match pagerank g d tol max_iter with
-  | PR_ok r => scores_close eps g (p_scores r) sc && close eps (p_objective r) obj
+  match pagerank g d tol max_iter, obj with
+  | PR_ok r, Some ob => scores_close eps g (p_scores r) sc && close eps (p_objective r) ob
                && (p_iterations r =? it)%nat && pstatus_eqb (p_status r) st
-  | _ => false
+  | PR_noiter s, None => scores_close eps g s sc && (it =? 0)%nat && pstatus_eqb P_MAX_ITER st
+  | _, _ => false
   end.
 
 Definition pr_corr_iter (eps : Q) (g : graph) (d : Q) (it : nat) (sc : list (nat * Q)) : bool :=
@@ -116,7 +118,7 @@ Definition pr_spec_check (eps : Q) (g : graph) (d : Q) (bound : Q) (sc : list (n
   && Qle_bool (residual g d sc) bound.
 
 (* one generated correspondence case: (g, ((damping, tol, max_iter), (strict, observable, residual bound))) *)
-Definition pr_case (c : graph * ((Q * Q * nat) * (bool * (list (nat * Q) * Q * nat * pstatus) * Q))) : bool :=
+Definition pr_case (c : graph * ((Q * Q * nat) * (bool * (list (nat * Q) * option Q * nat * pstatus) * Q))) : bool :=
   let g := fst c in
   let d := fst (fst (fst (snd c))) in
   let tol := snd (fst (fst (snd c))) in
